@@ -28,6 +28,9 @@ pub enum Op {
     GAdd(i64),
     HRec,
     Flush,
+    /// (agent scenarios) a histogram value whose text is about twice as long as HRec's, so that a
+    /// small payload limit can reject it while HRec values still fit
+    HLong,
 }
 
 #[derive(Clone, Debug, Serialize, Deserialize)]
@@ -57,6 +60,9 @@ pub struct Ev {
     pub payloads: Vec<Vec<u8>>,
 }
 
+/// added to a tag to make its text long: (2^20 + n) + 0.123456789 prints 17 characters
+pub const LONG_FRACTION: f64 = 0.123456789;
+
 pub fn key_for(op: &Op) -> Option<Key> {
     match op {
         Op::CInc(_) => Some(Key::from_parts("c_inc", vec![Label::new("own", "1")])),
@@ -64,7 +70,7 @@ pub fn key_for(op: &Op) -> Option<Key> {
         Op::CAbs(_) => Some(Key::from_name("c_abs")),
         Op::GSet => Some(Key::from_parts("g_one", vec![Label::new("own", "1")])),
         Op::GAdd(_) => Some(Key::from_name("g_acc")),
-        Op::HRec => Some(Key::from_name("h_one")),
+        Op::HRec | Op::HLong => Some(Key::from_name("h_one")),
         Op::Flush => None,
     }
 }
@@ -177,6 +183,10 @@ impl Scenario for C10Flush {
                             }
                             Op::HRec => {
                                 rec.register_histogram(&key, &MD).record(tag as f64);
+                                tag
+                            }
+                            Op::HLong => {
+                                rec.register_histogram(&key, &MD).record(tag as f64 + LONG_FRACTION);
                                 tag
                             }
                             Op::Flush => 0,
@@ -460,7 +470,35 @@ pub fn check_flush_history(cfg: &Cfg, h: &[Ev], exact_tail: bool) -> Option<Viol
         }
     }
     // ---- histogram: every value in exactly one flush
-    let recs: Vec<&Ev> = h.iter().filter(|e| e.op == Op::HRec).collect();
+    check_hist_history(cfg, h, exact_tail, None, &parsed)
+}
+
+/// Small payload limits (agent scenarios): only the histogram accounting applies.
+pub fn check_hist_only(cfg: &Cfg, h: &[Ev], limit: usize) -> Option<Violation> {
+    let mut parsed: Vec<Vec<dd::Msg>> = vec![];
+    for f in h.iter().filter(|e| e.op == Op::Flush) {
+        let mut ms = vec![];
+        for p in &f.payloads {
+            match dd::parse(p) {
+                Ok(m) => ms.push(m),
+                Err(e) => return violation("payload-malformed", format!("flush at {}: {} in {:?}", f.inv, e, String::from_utf8_lossy(p))),
+            }
+        }
+        parsed.push(ms);
+    }
+    check_hist_history(cfg, h, true, Some(limit), &parsed)
+}
+
+/// Histogram part of the flush-history check. With `limit` = Some(configured payload limit) it is
+/// the only part that applies (counter and gauge messages may themselves be rejected for size):
+/// every recorded value is sent at most once, nothing foreign is sent, and a short (HRec) value
+/// whose whole single-value message fits the limit with two bytes to spare is sent by some flush —
+/// also after a flush in which nothing of this histogram fitted.
+fn check_hist_history(cfg: &Cfg, h: &[Ev], exact_tail: bool, limit: Option<usize>, parsed: &[Vec<dd::Msg>]) -> Option<Violation> {
+    let pre = if cfg.prefix { "pre." } else { "" };
+    let get = |fi: usize, base: &str| -> Vec<&dd::Msg> { parsed[fi].iter().filter(|m| m.name.strip_prefix(pre) == Some(base)).collect() };
+    let flushes: Vec<&Ev> = h.iter().filter(|e| e.op == Op::Flush).collect();
+    let recs: Vec<&Ev> = h.iter().filter(|e| e.op == Op::HRec || e.op == Op::HLong).collect();
     let mut seen: BTreeMap<u64, usize> = BTreeMap::new();
     for (fi, f) in flushes.iter().enumerate() {
         for m in get(fi, "h_one") {
@@ -483,8 +521,15 @@ pub fn check_flush_history(cfg: &Cfg, h: &[Ev], exact_tail: bool) -> Option<Viol
     }
     if exact_tail {
         for r in &recs {
+            if let Some(limit) = limit {
+                let x = if r.op == Op::HLong { r.value as f64 + LONG_FRACTION } else { r.value as f64 };
+                let msg_len = if cfg.prefix { 4 } else { 0 } + "h_one:".len() + format!("{:?}", x).len() + "|h".len() + if cfg.global_label { "|#glob:x".len() } else { 0 } + 1;
+                if msg_len + 2 > limit {
+                    continue;
+                }
+            }
             if !seen.contains_key(&r.value) {
-                return violation("histogram-lost", format!("h_one value recorded at steps {}..{} was never sent by any flush", r.inv, r.ret));
+                return violation("histogram-lost", format!("h_one value recorded at steps {}..{} was never sent by any flush{}", r.inv, r.ret, limit.map_or(String::new(), |l| if l > 1 << 32 { String::new() } else { format!(" although its message fits the payload limit of {} bytes", l) })));
             }
         }
     }
@@ -534,6 +579,7 @@ impl Scenario for C10Agent {
                         3 => Op::CInc2(r.range(1, 9)),
                         4 => Op::CAbs(r.range(0, 7)),
                         5..=6 => Op::GSet,
+                        7 => Op::HLong,
                         _ => Op::HRec,
                     })
                     .collect()
@@ -620,6 +666,10 @@ impl Scenario for C10Agent {
                             rec.register_histogram(&key, &MD).record(tag as f64);
                             tag
                         }
+                        Op::HLong => {
+                            rec.register_histogram(&key, &MD).record(tag as f64 + LONG_FRACTION);
+                            tag
+                        }
                         Op::Flush => 0,
                     };
                     let ret = dsim::step();
@@ -627,8 +677,17 @@ impl Scenario for C10Agent {
                 }
                 dsim::sleep(interval);
             }
-            // three more full cycles at rest
+            // three more full cycles at rest (after slow sends: enough for the forwarder to catch up)
             dsim::sleep(3 * interval);
+            let mut seen = 0;
+            loop {
+                let n = crate::simnet::slow_sends();
+                if n == seen {
+                    break;
+                }
+                seen = n;
+                dsim::sleep(1_000_000_000 + 3 * interval);
+            }
         });
         crate::simnet::uninstall();
         let mut rep = RunReport::ok(sim);
@@ -650,7 +709,7 @@ impl Scenario for C10Agent {
             if plan.transport == 2 {
                 for (id, s) in st.streams.iter() {
                     let (frames, rest) = dd::deframe(&s.to_peer);
-                    if !rest.is_empty() && !s.ended_by_fault {
+                    if !rest.is_empty() && !s.ended_by_fault && !s.slow_in_progress {
                         v = violation("stream-framing", format!("connection {} did not end in an injected error but its byte stream ends with {} bytes that are not a whole length-prefixed frame", id, rest.len()));
                     }
                     // time/step of a frame = those of the write that completed it
@@ -686,7 +745,21 @@ impl Scenario for C10Agent {
             }
             // ---- conservation: only in fault-free runs (a failed send loses that payload, as documented)
             // (and only when no single counter/gauge message can be rejected for size: the longest one is ~60 bytes)
-            if v.is_none() && faults.is_empty() && plan.max_payload.map_or(true, |m| m >= 100) {
+            // ---- under loss (failed or dropped sends, broken connections): what does arrive still obeys
+            // "a counter that stopped changing is sent as zero once and not again until it changes"
+            let lossy = ["dgram_drop", "send_refused", "send_nobufs", "send_timeout", "connect_refused", "write_epipe", "write_reset", "write_wouldblock", "write_eintr", "short_write"];
+            if v.is_none() && !faults.is_empty() && faults.iter().all(|f| lossy.contains(&f.kind.as_str())) {
+                v = check_idle_zero_under_loss(plan, &messages);
+            }
+            if v.is_none() && !faults.is_empty() && faults.iter().all(|f| f.kind == "send_slow") {
+                // slow sends lose nothing but shift the flush times, so flush windows cannot be
+                // told from the clock: only the time-free histogram accounting is asserted
+                let all: Vec<Vec<u8>> = messages.iter().map(|m| m.2.clone()).collect();
+                h.push(Ev { tid: 99, inv: 0, ret: u64::MAX, op: Op::Flush, value: 0, payloads: all });
+                v = check_hist_only(&plan.cfg, &h, plan.max_payload.unwrap_or(usize::MAX - 2));
+            }
+            if v.is_none() && faults.is_empty() {
+                let full = plan.max_payload.map_or(true, |m| m >= 100);
                 // flush k happens at virtual time k * interval; its sends fall into [k*I, (k+1)*I)
                 let last_cycle = messages.iter().map(|m| m.0 / interval).max().unwrap_or(0).max(plan.cycles.len() as u64 + 3);
                 for k in 1..=last_cycle {
@@ -697,7 +770,7 @@ impl Scenario for C10Agent {
                     h.push(Ev { tid: 99, inv, ret, op: Op::Flush, value: 0, payloads: mine });
                 }
                 h.sort_by_key(|e| e.inv);
-                v = check_flush_history(&plan.cfg, &h, true);
+                v = if full { check_flush_history(&plan.cfg, &h, true) } else { check_hist_only(&plan.cfg, &h, plan.max_payload.unwrap_or(0)) };
             }
         }
         // observations: chunk sizes as delivered, plus whole messages with the wall-clock
@@ -756,6 +829,43 @@ impl Scenario for C10Agent {
     }
 }
 
+/// Flush k of the forwarder runs at virtual time k * interval and its sends fall into that interval
+/// (no slow sends in these runs); the application's operations of cycle c happen at (c + 1/2) *
+/// interval. Two zero deltas received for one increment-only counter series must have an increment
+/// of that series between their flushes, however many payloads were lost in between.
+fn check_idle_zero_under_loss(plan: &APlan, messages: &[(u64, u64, Vec<u8>)]) -> Option<Violation> {
+    let interval = plan.interval_ms * 1_000_000;
+    let pre = if plan.cfg.prefix { "pre." } else { "" };
+    for series in ["1", "2"] {
+        let mut inc_times: Vec<u64> = vec![];
+        for (c, ops) in plan.cycles.iter().enumerate() {
+            for op in ops {
+                if matches!((op, series), (Op::CInc(_), "1") | (Op::CInc2(_), "2")) {
+                    inc_times.push(interval / 2 + c as u64 * interval);
+                }
+            }
+        }
+        let mut zeros: Vec<u64> = vec![]; // flush index of every received zero
+        for (t, _, m) in messages {
+            if let Ok(msg) = dd::parse(m) {
+                if msg.name.strip_prefix(pre) == Some("c_inc") && msg.tags.iter().any(|(k, v)| k == "own" && v.as_deref() == Some(series)) && msg.values.first().map(|v| v.as_str()) == Some("0") {
+                    zeros.push(t / interval);
+                }
+            }
+        }
+        for w in zeros.windows(2) {
+            let (k1, k2) = (w[0], w[1]);
+            if !inc_times.iter().any(|t| *t > k1 * interval && *t < k2 * interval) {
+                return violation(
+                    "idle-zero-resent",
+                    format!("c_inc{{own={}}}: the agent received a zero delta from flush {} and another from flush {} although the counter was not incremented in between (increments at {:?} ns, interval {} ns); lost payloads can remove messages, not repeat the idle zero", series, k1, k2, inc_times, interval),
+                );
+            }
+        }
+    }
+    None
+}
+
 /// The same end-to-end pipeline filed under C09: biased to the length-prefixed unix stream
 /// transport and to small payload limits (rejections, many payloads per flush cycle).
 pub struct C09Agent;
@@ -780,7 +890,7 @@ impl Scenario for C09Agent {
             p.transport = 2;
         }
         if r.chance(600) {
-            p.max_payload = Some(*r.pick(&[40usize, 48, 64, 100]));
+            p.max_payload = Some(*r.pick(&[24usize, 28, 32, 36, 40, 48, 64, 100]));
         }
         p
     }
